@@ -478,7 +478,7 @@ def run(ctx):
     n_progs, emitted = 0, 0
     rnd = random.Random(ctx.seed)
     g_in = os.path.join(ctx.work, "g_in.ndjson")
-    cap = 900 if q else 60000
+    cap = 900 if q else 40000
     with open(g_in, "w") as gf:
         for p in profiles:
             lines = []
